@@ -103,6 +103,7 @@ func BuiltFields(fn *ssa.Function, named *types.Named) map[string]BuiltField {
 //   - the loop lives in an eligible helper that receives the collection and a
 //     function value, and fn passes a function (literal, method value or
 //     method expression) that makes the delegating call on its argument.
+//
 // Returns the call that sits in the loop (for error-fold checks) and its function.
 func VisitsAll(fn *ssa.Function, sel func(ssa.CallInstruction) bool, recv *ssa.Parameter) (ok bool, why string, loopCall *ssa.Call, loopFn *ssa.Function) {
 	var calls []*ssa.Call
